@@ -1437,7 +1437,7 @@ def tier_b_cases(ck):
     out += group_merge(pm, 'permachine', lambda c: (tuple(c['meta']['subset']), c['meta']['a']))
     # ---- subproject 2^8
     subs = [(False, False, False, None)] if not ck.thorough else \
-        [(False, False, False, None), (True, True, True, None), (False, True, True, None), (True, False, False, None)]
+        [(False, False, False, None), (True, True, True, None), (False, True, True, None)]
     for cross, df, ms, only_a in subs:
         cs = list(fam_sub('bsub', persub, cross, df, ms))
         for mode in ('pnon', 'pyield', 'pyieldT', 'pnon0', 'pyield0'):
@@ -1450,15 +1450,19 @@ def tier_b_cases(ck):
     lt = list(fam_top(late, False, False, False))
     out += group_merge(lt, 'top-late', lambda c: (tuple(c['meta']['subset']), c['meta']['a']))
     ls = list(fam_sub('bsub', ['c_std'], False, False, False))
+    ls = [c for c in ls if c['meta']['a'] == (seed + 1) % 3]
     if not ck.thorough:
-        ls = [c for c in ls if c['meta']['a'] == (seed + 1) % 3 and (len(c['meta']['subset']) <= 2 or len(c['meta']['subset']) == 8)]
+        ls = [c for c in ls if len(c['meta']['subset']) <= 2 or len(c['meta']['subset']) == 8]
     out += group_merge(ls, 'sub-late', lambda c: (tuple(c['meta']['subset']), c['meta']['a']))
     # ---- buildtype
     bt = list(fam_buildtype_top())
+    bt = [c for c in bt if c['meta']['a'] == seed % 3]       # tier A runs all three assignments
     if not ck.thorough:
-        bt = [c for c in bt if c['meta']['nsrc'] <= 2 and c['meta']['a'] == seed % 3]
+        bt = [c for c in bt if c['meta']['nsrc'] <= 2]
     out += bt
     bs = list(fam_buildtype_sub(max_sources=2 if ck.thorough else 1))
+    if ck.thorough:
+        bs = [c for c in bs if c['meta']['a'] == 0 or c['meta']['nsrc'] == 1]
     out += bs
     # ---- prefix, invalid
     out += list(fam_prefix())
